@@ -64,6 +64,7 @@ impl Observer for TimerMonitor {
         if st.panic.is_some() {
             return Ok(());
         }
+        let armed_before = self.armed.clone();
         let t = &w.t;
         let v = t.v.map(|v| v.name()).unwrap_or("undetermined");
         let role = if t.as_client { "client" } else { "server" };
@@ -223,6 +224,18 @@ impl Observer for TimerMonitor {
                 }
             }
         }
+        // ---- nothing but a close, a DISCONNECT (sent or received), an interval change or an interval of 0 disarms the
+        //      PINGREQ timer of an established client: a call that found it armed leaves it armed
+        if t.as_client && pre.status != St::Disconnected && t.status == St::Connected && !t.close_requested && armed_before.contains(&TK::PingreqSend) && !self.armed.contains(&TK::PingreqSend) {
+            let want = client_interval(t);
+            let disconnect_seen = st.recvs().iter().any(|a| matches!(a, AP::Disconnect { .. })) || st.sends().iter().any(|a| matches!(a, AP::Disconnect { .. }));
+            let interval_change = matches!(st.call, Call::SetOpt(Opt::PingInterval(_)));
+            let fits = t.mps_send.map(|m| m >= 2).unwrap_or(true);
+            if want > 0 && fits && !disconnect_seen && !interval_change {
+                let src = if t.ping_override.is_some() { "override" } else if t.server_keep_alive.is_some() { "server_keep_alive" } else { "connect_keep_alive" };
+                return Err(fail("C15.client_timer_disarmed", format!("{name}/{src}/{v}"), format!("the client stays connected with a PINGREQ interval of {want} ms ({src}; override {:?}, Server Keep Alive {:?}, keep-alive {}) but this call disarmed the PINGREQ timer: {}", t.ping_override, t.server_keep_alive, t.keep_alive, brief_list(&st.events))));
+            }
+        }
         let _ = role;
         Ok(())
     }
@@ -272,7 +285,7 @@ pub fn run(ctx: &Ctx) -> Report {
          sends and receives of all kinds, expiries of armed timers only, closes, DISCONNECTs, reconnects; client, server and Any; both versions. Oracle: armed-set consistency, interval priority, 1.5 x keep-alive, expiry effects. \
          non-trivial = a timer expired or an interval changed while connected, and the history has a close",
     );
-    let n = ctx.tier.pick(150_000, 2_000_000);
+    let n = ctx.tier.pick(400_000, 2_000_000);
     let (st, v) = search(ctx, "c15.history", n, || history(profile(), true, no_hostile()), test);
     rep.absorb("histories", st, v, false);
     rep.assumptions.push("'local call' excludes recv and notify_timer_fired; an accepted CONNECT leaves the disconnected state and may arm the PINGREQ timer".into());
